@@ -195,5 +195,25 @@ func c17Sched(rep *core.Report, pool *core.Pool) {
 	cSchedExplore(rep, pool, []cPlanTask{
 		{Params: cParams{Prop: "C17", Cfg: resume, Replay: true, Preload: 2}, Hist: []string{"tick:100", "note:tx", "note:upd", "tick:100"}},
 		{Params: cParams{Prop: "C17", Cfg: cBase(client.ConnectionTypeFull), Replay: true}, Hist: []string{"note:tx", "note:hdrs", "note:upd", "drop", "tick:2100", "note:tx", "tick:100"}},
-	}, []planStep{{Kind: "stall", Alt: 50}, {Kind: "switch", Alt: 0}, {Kind: "switch", Alt: 1}, {Kind: "drop"}})
+	}, []planStep{{Kind: "stall", Alt: 50}, {Kind: "switch", Alt: 0}, {Kind: "switch", Alt: 1}, {Kind: "switch", Alt: 2}, {Kind: "switch", Alt: 3}, {Kind: "switch", Alt: 4}, {Kind: "switch", Alt: 5}, {Kind: "drop"}})
+}
+
+// c18Sched: the handshake gate under schedule deviations. Baselines queue a request before the
+// handshake completes; at every scheduling point one stall / pre-emption (any of the first six
+// other runnable threads). Oracles of C18: nothing but handshake messages reaches a connection
+// before its handshake is complete, nothing at all after a forged accept.
+func c18Sched(rep *core.Report, pool *core.Pool) {
+	manual := func(ct client.ConnectionType) CWorldCfg {
+		return CWorldCfg{ConnType: ct, AutoAccept: false, AutoReady: false, RequestTimeout: 10 * time.Second}
+	}
+	var tasks []cPlanTask
+	for _, ct := range []client.ConnectionType{client.ConnectionTypeFull, client.ConnectionTypeControl} {
+		p := cParams{Prop: "C18", Cfg: manual(ct)}
+		tasks = append(tasks,
+			cPlanTask{Params: p, Hist: []string{"call:gettx:01", "accept:valid", "ready:1", "tick:100", "ans:0:proper", "tick:100"}},
+			cPlanTask{Params: p, Hist: []string{"call:gettx:01", "accept:wrongkey", "tick:100", "tick:2100"}},
+			cPlanTask{Params: p, Hist: []string{"call:gettx:01", "accept:othersigner", "tick:100"}},
+		)
+	}
+	cSchedExplore(rep, pool, tasks, []planStep{{Kind: "stall", Alt: 50}, {Kind: "stall", Alt: 400}, {Kind: "switch", Alt: 0}, {Kind: "switch", Alt: 1}, {Kind: "switch", Alt: 2}, {Kind: "switch", Alt: 3}, {Kind: "switch", Alt: 4}, {Kind: "switch", Alt: 5}})
 }
